@@ -5,93 +5,162 @@ import Dnp3.Proofs.OutstationC07
 
 "An outstation executes and answers application fragments only from its configured master
 address unless told to accept any master, and it transmits nothing in reply to a broadcast."
-Holds for fragments whose application header is well formed; header-error fragments ARE answered
-(known defect D6) — kept as counterexample theorems.  Statements restated verbatim from
-`Dnp3.Proofs.OutstationC07`.
+
+Defect D6 (fragments with a header-level error were answered with IIN2.0 even to a foreign master
+or to a broadcast, and aborted a solicited confirm wait) is REPAIRED; the statements are the full ones:
+
+* `foreign_master_silent` (+ the per-mode equations): EVERY accepted fragment (`RxAccepted`) from a
+  foreign master, whatever its octets (well-formed request, header-level error, one octet; unicast or
+  broadcast), only advances the frame counter; any two give the same step result in every mode.
+* broadcast from an accepted master: parses as a request (function ≠ CONFIRM) - `broadcast_silent`,
+  `processBroadcast_silent`, `broadcast_silent_unsolWait_step`: callbacks only; does not parse as a
+  request (`HeaderBad`) - `runPass_broadcast_headerError`, `unsolWaitOnFragment_broadcast_headerError`,
+  `solWaitOnFragment_headerBad_aborts`, `broadcast_headerError_*_step`: nothing is written (in the
+  solicited confirm wait the series is aborted, as by every broadcast); `headerBad_or_request`: these
+  are all cases.
+* `broadcast_never_answered`: in EVERY mode, for EVERY accepted broadcast fragment other than a CONFIRM
+  (any source, any octets), no output of the whole step is a solicited response.
+* the UNICAST header-error fragment of an accepted master is still answered with IIN2.0:
+  `header_error_answered_idle_step_outputs`, `header_error_answered_unsolWait_step`.
+* `*_example`: the inputs of the former D6 counterexamples, now silent.
+
+Statements restated verbatim from `Dnp3.Proofs.OutstationC07`.
 -/
 namespace Dnp3.Props.C07
 open Dnp3 Dnp3.Proofs.C07app
 
-theorem popRequest_foreign_master_silent (s : OState) (f : Frag) (ctrl : AppCtrl) (func : Nat)
-    (objects : Except Nat (List ObjHdr)) (raw : List Nat)
-    (hany : s.cfg.anymaster = false) (hsrc : f.src ≠ s.cfg.master)
-    (hp : parseRequest f.data = .request ctrl func objects raw) :
+theorem popRequest_foreign_master_silent (s : OState) (f : Frag)
+    (hany : s.cfg.anymaster = false) (hsrc : f.src ≠ s.cfg.master) :
     popRequest { s with pending := some f } = ({ s with pending := none }, .nothing) :=
-  @Dnp3.Proofs.C07app.popRequest_foreign_master_silent s f ctrl func objects raw hany hsrc hp
+  @Dnp3.Proofs.C07app.popRequest_foreign_master_silent s f hany hsrc
 
-/-- foreign well-formed request while waiting for a solicited confirm: no output, only the frame
-    counter advances (and the fragment is consumed) -/
+/-- fragment of a foreign master (ANY octets) while waiting for a solicited confirm: no output, the
+    wait goes on, only the frame counter advances (and the fragment is consumed) -/
 theorem foreign_master_silent_solWait (env : OEnv) (s : OState) (src dst : Nat) (data : List Nat)
     (b : Option Nat) (series : Series) (deadline : Nat) (cont : SolCont)
-    (ctrl : AppCtrl) (func : Nat) (objects : Except Nat (List ObjHdr)) (raw : List Nat)
     (hmode : s.mode = .solWait series deadline cont)
     (hacc : RxAccepted env src dst data b)
-    (hany : s.cfg.anymaster = false) (hsrc : src ≠ s.cfg.master)
-    (hp : parseRequest data = .request ctrl func objects raw) :
+    (hany : s.cfg.anymaster = false) (hsrc : src ≠ s.cfg.master) :
     Outstation.step env s (.rx src dst data) =
       ({ s with frameId := (s.frameId + 1) % 4294967296, pending := none }, []) :=
-  @Dnp3.Proofs.C07app.foreign_master_silent_solWait env s src dst data b series deadline cont ctrl func objects raw hmode hacc hany hsrc hp
+  @Dnp3.Proofs.C07app.foreign_master_silent_solWait env s src dst data b series deadline cont hmode hacc hany hsrc
 
+/-- fragment of a foreign master (ANY octets) while waiting for an unsolicited confirm -/
 theorem foreign_master_silent_unsolWait (env : OEnv) (s : OState) (src dst : Nat) (data : List Nat)
     (b : Option Nat) (resp : Resp) (isNull : Bool) (retries : Option Nat) (deadline : Nat)
-    (ctrl : AppCtrl) (func : Nat) (objects : Except Nat (List ObjHdr)) (raw : List Nat)
     (hmode : s.mode = .unsolWait resp isNull retries deadline)
     (hacc : RxAccepted env src dst data b)
-    (hany : s.cfg.anymaster = false) (hsrc : src ≠ s.cfg.master)
-    (hp : parseRequest data = .request ctrl func objects raw) :
+    (hany : s.cfg.anymaster = false) (hsrc : src ≠ s.cfg.master) :
     Outstation.step env s (.rx src dst data) =
       ({ s with frameId := (s.frameId + 1) % 4294967296, pending := none }, []) :=
-  @Dnp3.Proofs.C07app.foreign_master_silent_unsolWait env s src dst data b resp isNull retries deadline ctrl func objects raw hmode hacc hany hsrc hp
+  @Dnp3.Proofs.C07app.foreign_master_silent_unsolWait env s src dst data b resp isNull retries deadline hmode hacc hany hsrc
 
 /-- in idle mode the pass runs, but exactly as if no fragment had arrived: the step equals an
     idle pass from the state whose frame counter advanced and whose reader is empty -/
 theorem foreign_master_silent_idle (env : OEnv) (s : OState) (src dst : Nat) (data : List Nat)
     (b : Option Nat) (next : NextIdle)
-    (ctrl : AppCtrl) (func : Nat) (objects : Except Nat (List ObjHdr)) (raw : List Nat)
     (hmode : s.mode = .idle next)
     (hacc : RxAccepted env src dst data b)
-    (hany : s.cfg.anymaster = false) (hsrc : src ≠ s.cfg.master)
-    (hp : parseRequest data = .request ctrl func objects raw) :
+    (hany : s.cfg.anymaster = false) (hsrc : src ≠ s.cfg.master) :
     Outstation.step env s (.rx src dst data) =
       finishStep (settle 8 (afterRequest (runPass (passFuel - 1))
         ({ s with frameId := (s.frameId + 1) % 4294967296, notified := false, pending := none }, []))) :=
-  @Dnp3.Proofs.C07app.foreign_master_silent_idle env s src dst data b next ctrl func objects raw hmode hacc hany hsrc hp
+  @Dnp3.Proofs.C07app.foreign_master_silent_idle env s src dst data b next hmode hacc hany hsrc
 
-/-- MAIN (target 1): in every mode, a well-formed request from a foreign master that passes the
-    address/length filters has no influence beyond advancing the frame counter: any two such
-    fragments (different sources, destinations, contents) give the same step result -/
+/-- MAIN (target 1): in every mode, a fragment from a foreign master that passes the address/length
+    filters has no influence beyond advancing the frame counter, WHATEVER ITS OCTETS (a well-formed
+    request, a fragment with a header-level error, a single octet): any two such fragments
+    (different sources, destinations, contents) give the same step result -/
 theorem foreign_master_silent (env : OEnv) (s : OState)
     (src dst : Nat) (data : List Nat) (b : Option Nat)
-    (ctrl : AppCtrl) (func : Nat) (objects : Except Nat (List ObjHdr)) (raw : List Nat)
     (src' dst' : Nat) (data' : List Nat) (b' : Option Nat)
-    (ctrl' : AppCtrl) (func' : Nat) (objects' : Except Nat (List ObjHdr)) (raw' : List Nat)
     (hany : s.cfg.anymaster = false)
     (hacc : RxAccepted env src dst data b) (hsrc : src ≠ s.cfg.master)
-    (hp : parseRequest data = .request ctrl func objects raw)
-    (hacc' : RxAccepted env src' dst' data' b') (hsrc' : src' ≠ s.cfg.master)
-    (hp' : parseRequest data' = .request ctrl' func' objects' raw') :
+    (hacc' : RxAccepted env src' dst' data' b') (hsrc' : src' ≠ s.cfg.master) :
     Outstation.step env s (.rx src dst data) = Outstation.step env s (.rx src' dst' data') :=
-  @Dnp3.Proofs.C07app.foreign_master_silent env s src dst data b ctrl func objects raw src' dst' data' b' ctrl' func' objects' raw' hany hacc hsrc hp hacc' hsrc' hp'
+  @Dnp3.Proofs.C07app.foreign_master_silent env s src dst data b src' dst' data' b' hany hacc hsrc hacc' hsrc'
 
-/-- `foreign_master_error_answered_counterexample`: unknown function code 70 from master 99
-    (configured master 1, `anymaster = false`) is answered to 99 with IIN2.0 -/
-theorem foreign_master_error_answered_counterexample :
+/-- `foreign_master_error_silent_example`: unknown function code 70 from master 99
+    (configured master 1, `anymaster = false`) produces no output at all (the step's output list has
+    length 0; before the repair it was answered to 99 with IIN2.0: `[(99, [C3 81 80 01])]`) -/
+theorem foreign_master_error_silent_example :
     cfg0.anymaster = false ∧ cfg0.master = 1 ∧
-    txFrags (Outstation.step {} (Outstation.start cfg0 0).1 (.rx 99 1024 [0xC3, 70])).2
-      = [(99, [0xC3, 0x81, 0x80, 0x01])] :=
-  @Dnp3.Proofs.C07app.foreign_master_error_answered_counterexample 
+    (Outstation.step {} (Outstation.start cfg0 0).1 (.rx 99 1024 [0xC3, 70])).2.length = 0 :=
+  @Dnp3.Proofs.C07app.foreign_master_error_silent_example 
+
+/-- UNS bit on a READ from master 99: no output either -/
+theorem foreign_master_uns_read_silent_example :
+    (Outstation.step {} (Outstation.start cfg0 0).1 (.rx 99 1024 [0xD3, 1])).2.length = 0 :=
+  @Dnp3.Proofs.C07app.foreign_master_uns_read_silent_example 
 
 /-- in a solicited confirm wait (reached here by a mandatory-confirm broadcast followed by a
     RECORD_CURRENT_TIME request, whose response then asks for a confirm) the foreign header-error
-    fragment aborts the wait (`solNewRequest`) and is then answered -/
-theorem foreign_master_error_aborts_solWait_counterexample :
+    fragment has no effect: no callback, no transmission, the series is NOT aborted - the confirm of
+    the configured master that follows is still accepted (`solConfirmed 4`) -/
+theorem foreign_master_error_keeps_solWait_example :
     (Outstation.run {} (Outstation.start cfg0 0).1
-        [.rx 1 0xFFFE [0xC3, 24], .rx 1 1024 [0xC4, 24], .rx 99 1024 [0xC3, 70]]).2.map
+        [.rx 1 0xFFFE [0xC3, 24], .rx 1 1024 [0xC4, 24], .rx 99 1024 [0xC3, 70], .rx 1 1024 [0xC4, 0]]).2.map
       (fun o => (cbs o, txFrags o)) =
     [([.broadcast 24 .processed], []),
      ([.solWait 4], [(1, [0xE4, 0x81, 0x81, 0x00])]),
-     ([.solNewRequest], [(99, [0xE3, 0x81, 0x81, 0x01])])] :=
-  @Dnp3.Proofs.C07app.foreign_master_error_aborts_solWait_counterexample 
+     ([], []),
+     ([.solConfirmed 4, .beginConfirm, .endConfirm 0 0 0], [])] :=
+  @Dnp3.Proofs.C07app.foreign_master_error_keeps_solWait_example 
+
+/-- in an unsolicited confirm wait (null unsolicited after start): no output, and the wait goes on
+    (the confirm of the configured master that follows is accepted) -/
+theorem foreign_master_error_silent_unsolWait_example :
+    (Outstation.run {} (Outstation.start { cfg0 with unsolicited := true } 0).1
+        [.rx 99 1024 [0xC3, 70]]).2.map List.length = [0] ∧
+    (Outstation.run {} (Outstation.start { cfg0 with unsolicited := true } 0).1
+        [.rx 99 1024 [0xC3, 70], .rx 1 1024 [0xD0, 0]]).2.map (fun o => (cbs o, txFrags o)) =
+      [([], []), ([.unsolConfirmed 0], [])] :=
+  @Dnp3.Proofs.C07app.foreign_master_error_silent_unsolWait_example 
+
+/-- every fragment either parses as a request or is `HeaderBad` -/
+theorem headerBad_or_request (data : List Nat) :
+    HeaderBad data ∨ ∃ ctrl func objects raw, parseRequest data = .request ctrl func objects raw :=
+  @Dnp3.Proofs.C07app.headerBad_or_request data
+
+/-- `write_error_response` for a broadcast fragment: nothing at all happens (no transmission, no
+    state change, no panic), whatever the sequence number -/
+theorem writeErrorResponse_broadcast (a : Acc) (dst : Nat) (seq : Option Nat) :
+    writeErrorResponse a dst true seq = some a :=
+  @Dnp3.Proofs.C07app.writeErrorResponse_broadcast a dst seq
+
+/-- `rejection_answered` (idle mode, universally quantified): for EVERY idle state, an accepted UNICAST
+    fragment of an accepted master whose header does not parse as a request makes the step start its
+    output with a response transmitted to that master, carrying IIN2.0, provided only that the
+    database does not panic (`getResponseIin` answers).  (Before the repair of D6 this held for ANY
+    source and for broadcasts too.) -/
+theorem header_error_answered_idle_step_outputs (env : OEnv) (s : OState) (src dst : Nat) (data : List Nat)
+    (next : NextIdle) (seq : Nat) (s' : OState) (i1 i2 : Nat)
+    (hmode : s.mode = .idle next)
+    (hacc : RxAccepted env src dst data none)
+    (hsrc : s.cfg.anymaster = true ∨ src = s.cfg.master)
+    (hp : parseRequest data = .headerError seq)
+    (hiin : getResponseIin (onLinkActivity
+        { s with frameId := (s.frameId + 1) % 4294967296, pending := none, notified := false })
+      = some (s', i1, i2)) :
+    ∃ rest, (Outstation.step env s (.rx src dst data)).2 =
+      .tx src (errorBytes seq (decide (s'.lastBroadcast = some 1)) i1 i2) :: rest :=
+  @Dnp3.Proofs.C07app.header_error_answered_idle_step_outputs env s src dst data next seq s' i1 i2 hmode hacc hsrc hp hiin
+
+/-- step level, unsolicited confirm wait: the UNICAST fragment of an accepted master whose header
+    does not parse as a request is answered; the step's only output is the transmission to `src` -/
+theorem header_error_answered_unsolWait_step (env : OEnv) (s : OState) (src dst : Nat) (data : List Nat)
+    (resp : Resp) (isNull : Bool) (retries : Option Nat) (deadline : Nat)
+    (seq : Nat) (s' : OState) (i1 i2 : Nat)
+    (hmode : s.mode = .unsolWait resp isNull retries deadline)
+    (hacc : RxAccepted env src dst data none)
+    (hsrc : s.cfg.anymaster = true ∨ src = s.cfg.master)
+    (hp : parseRequest data = .headerError seq)
+    (hiin : getResponseIin { s with frameId := (s.frameId + 1) % 4294967296, pending := none, deferred := none }
+      = some (s', i1, i2)) :
+    Outstation.step env s (.rx src dst data) =
+      ({ s' with solBuf := writeAt s'.solBuf 0 (errorBytes seq (decide (s'.lastBroadcast = some 1)) i1 i2) },
+       [.tx src (errorBytes seq (decide (s'.lastBroadcast = some 1)) i1 i2)]) :=
+  @Dnp3.Proofs.C07app.header_error_answered_unsolWait_step env s src dst data resp isNull retries deadline seq s' i1 i2 hmode hacc hsrc hp hiin
 
 theorem classify_broadcast (s : OState) (f : Frag) (ctrl : AppCtrl) (func : Nat)
     (objects : Except Nat (List ObjHdr)) (m : Nat) (hb : f.broadcast = some m) (hf : func ≠ 0) :
@@ -104,7 +173,7 @@ theorem processBroadcast_silent (a : Acc) (f : Frag) (m : Nat) (ctrl : AppCtrl) 
     (objects : Except Nat (List ObjHdr)) (raw : List Nat) (a' : Acc)
     (h : processBroadcast a f m ctrl func objects raw = some a') :
     a'.1.lastBroadcast = some m ∧
-    (a'.1.pending = a.1.pending ∧ a'.1.mode = a.1.mode ∧ a'.1.cfg = a.1.cfg) ∧
+    (a'.1.pending = a.1.pending ∧ a'.1.mode = a.1.mode ∧ a'.1.cfg = a.1.cfg ∧ a'.1.deferred = a.1.deferred) ∧
     ∃ l action, a'.2 = a.2 ++ l ++ [.cb (.broadcast func action)] ∧ OnlyCb l :=
   @Dnp3.Proofs.C07app.processBroadcast_silent a f m ctrl func objects raw a' h
 
@@ -132,20 +201,141 @@ theorem broadcast_silent_unsolWait_step (env : OEnv) (s : OState) (src dst : Nat
       s'.lastBroadcast = some m ∧ s'.pending = none ∧ s'.mode = s.mode :=
   @Dnp3.Proofs.C07app.broadcast_silent_unsolWait_step env s src dst data m resp isNull retries deadline ctrl func objects raw hmode hacc hsrc hp hf
 
-/-- `broadcast_error_answered_counterexample` (D6, second half): a broadcast fragment (dst 0xFFFF)
-    with unknown function code 70 IS answered (`C3 81 80 01` to its source); general statement:
-    `popRequest_headerError` + `runPass_headerError_answered` / `unsolWaitOnFragment_headerError_answered`
-    (neither has any hypothesis on `f.broadcast`) -/
-theorem broadcast_error_answered_counterexample :
-    txFrags (Outstation.step {} (Outstation.start cfg0 0).1 (.rx 1 0xFFFF [0xC3, 70])).2
-      = [(1, [0xC3, 0x81, 0x80, 0x01])] ∧
+/-- idle pass on a broadcast fragment with a header-level error: `writeErrorResponse` transmits
+    nothing; the pass continues exactly as after a consumed fragment - like `runPass_foreign` /
+    `runPass_no_fragment`, but the link activity is recorded (the fragment was addressed to us by
+    an accepted master) -/
+theorem runPass_broadcast_headerError (s : OState) (outs : List OOut) (fuel : Nat) (f : Frag) (m : Nat)
+    (hpend : s.pending = some f) (hsrc : s.cfg.anymaster = true ∨ f.src = s.cfg.master)
+    (hb : f.broadcast = some m) (hp : HeaderBad f.data) :
+    runPass (fuel + 1) (s, outs) =
+      afterRequest (runPass fuel) (onLinkActivity { s with notified := false, pending := none }, outs) :=
+  @Dnp3.Proofs.C07app.runPass_broadcast_headerError s outs fuel f m hpend hsrc hb hp
+
+/-- unsolicited confirm wait, broadcast fragment with a header-level error: consumed; no transmission,
+    no callback, the wait goes on; the only state change besides `pending := none` is that a deferred
+    READ is dropped (as for every fragment other than a confirm handled in this wait) -/
+theorem unsolWaitOnFragment_broadcast_headerError (a : Acc) (resp : Resp) (isNull : Bool) (f : Frag) (m : Nat)
+    (hpend : a.1.pending = some f) (hsrc : a.1.cfg.anymaster = true ∨ f.src = a.1.cfg.master)
+    (hb : f.broadcast = some m) (hp : HeaderBad f.data) :
+    unsolWaitOnFragment a resp isNull = .blocked ({ a.1 with pending := none, deferred := none }, a.2) :=
+  @Dnp3.Proofs.C07app.unsolWaitOnFragment_broadcast_headerError a resp isNull f m hpend hsrc hb hp
+
+/-- solicited confirm wait, fragment of an accepted master with a header-level error - in particular a
+    BROADCAST one (there is no hypothesis on `f.broadcast`): as for every well-formed broadcast
+    (`solWaitOnFragment_broadcast`) and every new request the response series is aborted
+    (`Confirm::NewRequest`: callback `solNewRequest`, `database.reset()`); this is not a transmission
+    in reply.  The fragment is retained (`pending` is still `some f`) and is then processed from idle,
+    i.e. for a broadcast by `runPass_broadcast_headerError`, silently -/
+theorem solWaitOnFragment_headerBad_aborts (a : Acc) (series : Series) (deadline : Nat) (cont : SolCont)
+    (f : Frag)
+    (hpend : a.1.pending = some f) (hsrc : a.1.cfg.anymaster = true ∨ f.src = a.1.cfg.master)
+    (hp : HeaderBad f.data) :
+    solWaitOnFragment a series deadline cont =
+      abortSeries (emitCb (onLinkActivity a.1, a.2) .solNewRequest) cont ∧
+    (emitCb (onLinkActivity a.1, a.2) .solNewRequest).1.pending = some f :=
+  @Dnp3.Proofs.C07app.solWaitOnFragment_headerBad_aborts a series deadline cont f hpend hsrc hp
+
+/-- BROADCAST with a header-level error, step level, unsolicited confirm wait: the step has NO output;
+    the fragment is consumed and a deferred READ dropped, nothing else changes -/
+theorem broadcast_headerError_silent_unsolWait_step (env : OEnv) (s : OState) (src dst : Nat) (data : List Nat)
+    (m : Nat) (resp : Resp) (isNull : Bool) (retries : Option Nat) (deadline : Nat)
+    (hmode : s.mode = .unsolWait resp isNull retries deadline)
+    (hacc : RxAccepted env src dst data (some m))
+    (hsrc : s.cfg.anymaster = true ∨ src = s.cfg.master)
+    (hp : HeaderBad data) :
+    Outstation.step env s (.rx src dst data) =
+      ({ s with frameId := (s.frameId + 1) % 4294967296, pending := none, deferred := none }, []) :=
+  @Dnp3.Proofs.C07app.broadcast_headerError_silent_unsolWait_step env s src dst data m resp isNull retries deadline hmode hacc hsrc hp
+
+/-- BROADCAST with a header-level error, step level, idle: nothing is written for the fragment; the step
+    is the idle pass that follows a consumed fragment (cf. `foreign_master_silent_idle`; here the link
+    activity is recorded) -/
+theorem broadcast_headerError_silent_idle_step (env : OEnv) (s : OState) (src dst : Nat) (data : List Nat)
+    (m : Nat) (next : NextIdle)
+    (hmode : s.mode = .idle next)
+    (hacc : RxAccepted env src dst data (some m))
+    (hsrc : s.cfg.anymaster = true ∨ src = s.cfg.master)
+    (hp : HeaderBad data) :
+    Outstation.step env s (.rx src dst data) =
+      finishStep (settle 8 (afterRequest (runPass (passFuel - 1))
+        (onLinkActivity { s with frameId := (s.frameId + 1) % 4294967296, notified := false, pending := none }, []))) :=
+  @Dnp3.Proofs.C07app.broadcast_headerError_silent_idle_step env s src dst data m next hmode hacc hsrc hp
+
+/-- BROADCAST with a header-level error, step level, solicited confirm wait: exactly as for a
+    well-formed broadcast (`broadcast_solWait_step`) the series is aborted, then the retained fragment
+    is processed by the idle pass (`resumeAfterSol` → `runPass`), where it is silent -/
+theorem broadcast_headerError_solWait_step (env : OEnv) (s : OState) (src dst : Nat) (data : List Nat)
+    (m : Nat) (series : Series) (deadline : Nat) (cont : SolCont)
+    (hmode : s.mode = .solWait series deadline cont)
+    (hacc : RxAccepted env src dst data (some m))
+    (hsrc : s.cfg.anymaster = true ∨ src = s.cfg.master)
+    (hp : HeaderBad data) :
+    Outstation.step env s (.rx src dst data) =
+      finishStep (settle 8 (abortSeries
+        (onLinkActivity (rxState s src (some m) data), [.cb .solNewRequest]) cont)) :=
+  @Dnp3.Proofs.C07app.broadcast_headerError_solWait_step env s src dst data m series deadline cont hmode hacc hsrc hp
+
+/-- `broadcast_error_silent_example` (D6 repaired, second half): a broadcast fragment (dst 0xFFFF)
+    with unknown function code 70 is NOT answered and produces no output at all (before the repair:
+    `C3 81 80 01` to its source); general statements: `runPass_broadcast_headerError`,
+    `unsolWaitOnFragment_broadcast_headerError`, `solWaitOnFragment_headerBad_aborts`,
+    step level `broadcast_headerError_silent_{idle,unsolWait}_step`, `broadcast_never_answered` -/
+theorem broadcast_error_silent_example :
+    (Outstation.step {} (Outstation.start cfg0 0).1 (.rx 1 0xFFFF [0xC3, 70])).2.length = 0 ∧
     -- also when broadcast support is disabled by configuration
-    txFrags (Outstation.step {} (Outstation.start { cfg0 with broadcast := false } 0).1 (.rx 1 0xFFFF [0xC3, 70])).2
-      = [(1, [0xC3, 0x81, 0x80, 0x01])] ∧
+    (Outstation.step {} (Outstation.start { cfg0 with broadcast := false } 0).1 (.rx 1 0xFFFF [0xC3, 70])).2.length = 0 ∧
     -- and from a foreign master to the broadcast address, in the unsolicited confirm wait
     (Outstation.run {} (Outstation.start { cfg0 with unsolicited := true } 0).1
-        [.rx 99 0xFFFF [0xC3, 70]]).2.map txFrags = [[(99, [0xC3, 0x81, 0x80, 0x01])]] :=
-  @Dnp3.Proofs.C07app.broadcast_error_answered_counterexample 
+        [.rx 99 0xFFFF [0xC3, 70]]).2.map List.length = [0] ∧
+    -- from the configured master to the broadcast address, in the unsolicited confirm wait
+    (Outstation.run {} (Outstation.start { cfg0 with unsolicited := true } 0).1
+        [.rx 1 0xFFFF [0xC3, 70]]).2.map List.length = [0] ∧
+    -- in the solicited confirm wait the series is aborted (as by every broadcast), nothing is transmitted
+    (Outstation.run {} (Outstation.start cfg0 0).1
+        [.rx 1 0xFFFE [0xC3, 24], .rx 1 1024 [0xC4, 24], .rx 1 0xFFFF [0xC3, 70]]).2.map
+      (fun o => (cbs o, txFrags o)) =
+    [([.broadcast 24 .processed], []),
+     ([.solWait 4], [(1, [0xE4, 0x81, 0x81, 0x00])]),
+     ([.solNewRequest], [])] :=
+  @Dnp3.Proofs.C07app.broadcast_error_silent_example 
+
+/-- step level, unsolicited confirm wait, EVERY accepted broadcast fragment other than a CONFIRM
+    (any source, any octets): the whole step emits application callbacks only -/
+theorem broadcast_unsolWait_onlyCb (env : OEnv) (s : OState) (src dst : Nat) (data : List Nat) (m : Nat)
+    (resp : Resp) (isNull : Bool) (retries : Option Nat) (deadline : Nat)
+    (hmode : s.mode = .unsolWait resp isNull retries deadline)
+    (hacc : RxAccepted env src dst data (some m))
+    (hnc : ∀ ctrl objects raw, parseRequest data ≠ .request ctrl 0 objects raw) :
+    OnlyCb (Outstation.step env s (.rx src dst data)).2 ∧
+      txFrags (Outstation.step env s (.rx src dst data)).2 = [] :=
+  @Dnp3.Proofs.C07app.broadcast_unsolWait_onlyCb env s src dst data m resp isNull retries deadline hmode hacc hnc
+
+/-- MAIN (target 3, all modes, all contents): handling an accepted broadcast fragment never results in
+    a solicited response.  For EVERY state and EVERY accepted fragment addressed to a broadcast
+    address (any source - accepted or foreign master -, any octets: a well-formed request, a header-level
+    error, a single octet) other than a CONFIRM (function code 0, which is not treated as a broadcast:
+    `broadcast_confirm_idle_ignored`, `broadcast_confirm_solWait_accepted`), none of the outputs of
+    the whole step - the handling of the fragment, the abort of a solicited confirm wait, the rest
+    of the idle pass, the hand-over of the retained fragment to a following confirm wait (`settle`) -
+    is a transmission with the function octet 0x81.  (What the step may transmit: unsolicited
+    responses, function octet 0x82, of the pass that follows, and link status requests.)
+    Hypothesis `hdef`: no READ is deferred - otherwise ITS response is written by the pass - unless the
+    outstation is in the unsolicited confirm wait, where the broadcast drops the deferred READ. -/
+theorem broadcast_never_answered (env : OEnv) (s : OState) (src dst : Nat) (data : List Nat) (m : Nat)
+    (hacc : RxAccepted env src dst data (some m))
+    (hnc : ∀ ctrl objects raw, parseRequest data ≠ .request ctrl 0 objects raw)
+    (hdef : s.deferred = none ∨ ∃ resp isNull retries deadline, s.mode = .unsolWait resp isNull retries deadline) :
+    NoSol (Outstation.step env s (.rx src dst data)).2 :=
+  @Dnp3.Proofs.C07app.broadcast_never_answered env s src dst data m hacc hnc hdef
+
+/-- in terms of `txFrags`: no transmitted application fragment of the step is a solicited response -/
+theorem broadcast_never_answered_txFrags (env : OEnv) (s : OState) (src dst : Nat) (data : List Nat) (m : Nat)
+    (hacc : RxAccepted env src dst data (some m))
+    (hnc : ∀ ctrl objects raw, parseRequest data ≠ .request ctrl 0 objects raw)
+    (hdef : s.deferred = none ∨ ∃ resp isNull retries deadline, s.mode = .unsolWait resp isNull retries deadline) :
+    ∀ p ∈ txFrags (Outstation.step env s (.rx src dst data)).2, p.2[1]? ≠ some 0x81 :=
+  @Dnp3.Proofs.C07app.broadcast_never_answered_txFrags env s src dst data m hacc hnc hdef
 
 theorem getResponseIin_after_broadcast (s s' : OState) (m i1 i2 : Nat)
     (hb : s.lastBroadcast = some m) (h : getResponseIin s = some (s', i1, i2)) :
